@@ -363,6 +363,9 @@ func c11CallerAbandons(kind string, m, extra int, how string, others int, probeD
 		// exactly the Write of the RST_STREAM fails (a per-message failure: the connection stays healthy); the handler
 		// never learns of the cancellation and keeps sending
 		s = append(s, Step{Op: "wfail", B: 1}, Step{Op: "cancel", C: c}, Step{Op: "drain"}, Step{Op: "wfail", B: 0})
+	case "cancel-rstblocked":
+		// the RST_STREAM Write blocks (back-pressure) until its 30 s deadline, then fails
+		s = append(s, Step{Op: "cancelblk", C: c}, Step{Op: "drain"}, Step{Op: "wfail", B: 0})
 	case "deadline-rstfail":
 		s = append(s, Step{Op: "wfail", B: 1}, Step{Op: "tick", D: 3000}, Step{Op: "drain"}, Step{Op: "wfail", B: 0})
 	}
@@ -413,7 +416,7 @@ func c11OverSending(shape string, d int, probeDl bool) cwScenario {
 		for i := 0; i < 2; i++ {
 			s = append(s, Step{Op: "peer", Env: bodyEnv(0, int64(40+i))})
 		}
-	case "stream-unread-cancel-rstfail", "stream-unread-deadline-rstfail", "stream-unread-badmd-rstfail":
+	case "stream-unread-cancel-rstfail", "stream-unread-deadline-rstfail", "stream-unread-badmd-rstfail", "stream-unread-cancel-rstblocked":
 		// d%4 bodies nobody reads; the call is cancelled / its deadline expires / the peer's first response carries
 		// undecodable metadata (the client aborts the stream with a reset); exactly the Write of that RST_STREAM fails,
 		// reads and later writes work; then the peer, which never learnt of it, sends 2 + d/4 further envelopes
@@ -427,8 +430,12 @@ func c11OverSending(shape string, d int, probeDl bool) cwScenario {
 		for i := 0; i < unread; i++ {
 			s = append(s, Step{Op: "peer", Env: bodyEnv(0, int64(30+i))})
 		}
-		s = append(s, Step{Op: "wfail", B: 1})
+		if shape != "stream-unread-cancel-rstblocked" {
+			s = append(s, Step{Op: "wfail", B: 1})
+		}
 		switch shape {
+		case "stream-unread-cancel-rstblocked":
+			s = append(s, Step{Op: "cancelblk", C: 0})
 		case "stream-unread-cancel-rstfail":
 			s = append(s, Step{Op: "cancel", C: 0})
 		case "stream-unread-deadline-rstfail":
@@ -522,6 +529,15 @@ func c11Scenarios(full bool) []cwScenario {
 					out = append(out, c11CallerAbandons(kind, m, (m+others)%2, how, others, (m+others)%2 == 1))
 				}
 			}
+		}
+	}
+	// ... and the variant in which that Write first blocks (back-pressure) and fails at its own 30 s deadline
+	for d := 0; d < 2*N; d++ {
+		out = append(out, c11OverSending("stream-unread-cancel-rstblocked", d, d%2 == 0))
+	}
+	for _, kind := range []string{"Bidi", "SStream"} {
+		for m := 0; m <= N; m++ {
+			out = append(out, c11CallerAbandons(kind, m, m%2, "cancel-rstblocked", m%3, false))
 		}
 	}
 	return out
